@@ -9,6 +9,7 @@ import Driver.Dp
 import Driver.Rq
 import Driver.Cn
 import Driver.Cl
+import Driver.Rs
 /-!
 # Line-protocol driver
 
@@ -26,6 +27,7 @@ structure St where
   rq : DrvRq.RSt := {}
   cn : Conn.State := {}
   cl : Client.State := {}
+  zc : Resolver.Zc := {}
 
 def showPlainErr : Option PlainErr → String
   | none => "none" | some .requiresEncryption => "requiresEncryption" | some .protocol => "protocol"
@@ -137,6 +139,7 @@ def step (st : St) (line : String) : St × String :=
     else if h.startsWith "rq." then let r := DrvRq.rqStep st.rq ws; ({ st with rq := r.1 }, r.2)
     else if h.startsWith "cn." then let r := DrvCn.cnStep st.cn ws; ({ st with cn := r.1 }, r.2)
     else if h.startsWith "cl." then let r := DrvCl.clStep st.cl ws; ({ st with cl := r.1 }, r.2)
+    else if h.startsWith "rs." || h.startsWith "zc." then let r := DrvRs.rsStep st.zc ws; ({ st with zc := r.1 }, r.2)
     else (st, "bad-op")
 
 partial def loop (h : IO.FS.Stream) (out : IO.FS.Stream) (st : St) : IO Unit := do
